@@ -137,7 +137,10 @@ func verifCandidate(s string) bool {
 }
 
 func verifRedactCheck(n int) {
-	text := sym.String("text", n, n)
+	verifRedactCheckText(sym.String("text", n, n))
+}
+
+func verifRedactCheckText(text string) {
 	schema := base.MustNewLogSchema([]string{"msg"})
 	cnt := &verifCounter{}
 	cfg := &Config{Key: "msg", MetricLabel: "redacted"}
@@ -174,4 +177,22 @@ func VerifC14_AllBytes() {
 		max = 7
 	}
 	verifRedactCheck(sym.Choice("len", max+1))
+}
+
+// VerifC14_LongerDomains: addresses with several domain labels need more bytes
+// than the all-bytes harness reaches: "x@" followed by 7 bytes over the
+// alphabet that matters to the domain scan (a letter, a digit, '.', '-', '_',
+// '@', space) - every text of that shape, e.g. x@a.b-c.d, x@1.2-a.b, x@a..b-c.
+//
+//verif:reach redacted unchanged
+//verif:unwind 40
+//verif:paths 400000
+func VerifC14_LongerDomains() {
+	n := 5 + 2*sym.Tier()
+	tail := sym.Bytes("domain", n, n)
+	for i := range tail {
+		c := tail[i]
+		sym.Assume(c == 'a' || c == '1' || c == '.' || c == '-' || c == '_' || c == '@' || c == ' ')
+	}
+	verifRedactCheckText("x@" + string(tail))
 }
